@@ -250,6 +250,8 @@ func Main(props map[string]*Prop) int {
 	}
 	total := len(fixed) + cases
 	seenClass := map[string]bool{}
+	fallback := map[string]FoundViolation{} // per class: an instance that did not fail again when re-run at once
+	unreproduced := map[string]int{}
 	knownClass := map[string]bool{}
 	for _, k := range strings.Split(os.Getenv("VERIF_KNOWN_CLASSES"), ",") {
 		if k != "" {
@@ -319,8 +321,22 @@ func Main(props map[string]*Prop) int {
 			res.Stats.Count("violations_same_class_not_minimised", 1)
 			continue
 		}
+		fv, reproduced := minimiseAndSave(p, sc, c, v, seed, tier, replayDir, deadline)
+		if !reproduced && !knownClass[v.Class] && unreproduced[v.Class] < 40 {
+			// Running the same scenario on the same tapes again, right away, did not fail: what
+			// failed depends on something outside the scenario (state that the code under test
+			// keeps per OS process and that earlier cases of this worker left behind, or the
+			// garbage collector). Such an instance is kept as a fall-back only - if no instance
+			// of its class reproduces, it is reported and the driver's replay decides - and the
+			// search for a reproducible one goes on.
+			res.Stats.Count("violations_not_reproduced_in_process", 1)
+			unreproduced[v.Class]++
+			if _, ok := fallback[v.Class]; !ok {
+				fallback[v.Class] = fv
+			}
+			continue
+		}
 		seenClass[v.Class] = true
-		fv := minimiseAndSave(p, sc, c, v, seed, tier, replayDir, deadline)
 		res.Violations = append(res.Violations, fv)
 		if knownClass[v.Class] {
 			continue // listed in known_findings.json: reported once, exploration goes on
@@ -329,6 +345,12 @@ func Main(props map[string]*Prop) int {
 		unlisted++
 		if unlisted >= maxViol {
 			break
+		}
+	}
+	for class, fv := range fallback {
+		if !seenClass[class] {
+			res.Violations = append(res.Violations, fv)
+			code = 1
 		}
 	}
 	if out != "" {
@@ -353,7 +375,7 @@ func cloneJSON(p *Prop, sc any) any {
 	return n
 }
 
-func minimiseAndSave(p *Prop, sc any, c *Ctx, v *Violation, seed uint64, tier, dir string, deadline time.Time) FoundViolation {
+func minimiseAndSave(p *Prop, sc any, c *Ctx, v *Violation, seed uint64, tier, dir string, deadline time.Time) (FoundViolation, bool) {
 	if v.Scenario != nil {
 		sc = v.Scenario
 	}
@@ -384,9 +406,11 @@ func minimiseAndSave(p *Prop, sc any, c *Ctx, v *Violation, seed uint64, tier, d
 	}
 	steps, accepted := 0, 0
 	// make sure the recorded tapes reproduce it at all
+	reproduced := false
 	if nv, tp := try(sc, tapes, 0); nv != nil {
 		tapes = tp
 		v = nv
+		reproduced = true
 	}
 	if v.NoMinimise {
 		budget = time.Now()
@@ -475,7 +499,7 @@ func minimiseAndSave(p *Prop, sc any, c *Ctx, v *Violation, seed uint64, tier, d
 		b, _ := json.MarshalIndent(rf, "", " ")
 		os.WriteFile(path, b, 0644)
 	}
-	return FoundViolation{Class: v.Class, Msg: v.Msg, Replay: path, Seed: seed}
+	return FoundViolation{Class: v.Class, Msg: v.Msg, Replay: path, Seed: seed}, reproduced
 }
 
 func tail(s []string, n int) []string {
